@@ -671,12 +671,19 @@ start:
 	}
 
 	processPhis := func(b *ir.BasicBlock, i int, s state) state {
+		// The phis of a block are evaluated in parallel: an operand that is
+		// itself a phi of this block refers to that phi's old value. Read all
+		// operands before updating any phi.
+		var vals []ValueNilness
 		for _, instr := range b.Instrs {
 			if instr, ok := instr.(*ir.Phi); ok {
-				s.set(instr, s.get(instr.Edges[i]))
+				vals = append(vals, s.get(instr.Edges[i]))
 			} else {
 				break
 			}
+		}
+		for k, val := range vals {
+			s.set(b.Instrs[k].(*ir.Phi), val)
 		}
 		return s
 	}
